@@ -98,6 +98,66 @@ def cases(tier, seed):
                     ops += ["ps.resum %s %d" % first, "ps.validate", "ps.store %s" % rhex(rnd, ds), "ps.validate", "ps.fetch"]
                     cs.append(Case("resum%d" % m, ops, ("reconfigured",)))
                     m += 1
+    # two different images with the same checksum, stored one after the other: what is fetched is the second one
+    # (a store may not take an equal checksum for an unchanged image)
+    def crc16(data, init):
+        c = init
+        for o in data:
+            c ^= o
+            for _ in range(8):
+                c = (c >> 1) ^ 0xa001 if c & 1 else c >> 1
+        return c
+
+    def colliding(kind, init, ds):
+        """[(a, b)]: different images of ds octets with equal checksums"""
+        out = []
+        for _ in range(6):
+            a = [rnd.getrandbits(8) for _ in range(ds)]
+            b = None
+            if kind == "sum16" and ds >= 2:
+                b = list(a)
+                i, j = rnd.sample(range(ds), 2)
+                if rnd.random() < 0.5 and a[i] != a[j]:
+                    b[i], b[j] = a[j], a[i]
+                else:
+                    d = rnd.randint(1, 255)
+                    a[i] = rnd.randint(0, 255 - d)
+                    a[j] = rnd.randint(d, 255)
+                    b = list(a)
+                    b[i] += d
+                    b[j] -= d
+            elif kind == "sum32" and ds >= 2:
+                i = rnd.randrange(ds - 1)
+                a[i] = rnd.randint(0, 254)
+                a[i + 1] = rnd.randint(31, 255)
+                b = list(a)
+                b[i] += 1
+                b[i + 1] -= 31
+            elif kind == "crc16" and ds >= 3:
+                seen = {}
+                for _ in range(20000):
+                    x = tuple(rnd.getrandbits(8) for _ in range(ds))
+                    c = crc16(x, init)
+                    if c in seen and seen[c] != x:
+                        a, b = list(seen[c]), list(x)
+                        break
+                    seen[c] = x
+            if b is not None and b != a:
+                out.append(("".join("%02x" % o for o in a), "".join("%02x" % o for o in b)))
+        return out
+
+    m = 0
+    for ds in (2, 3, 4, 7, 12):
+        for kind, init in KINDS:
+            for buf in ("none", "0", "3", str(ds)):
+                w = 4 if kind == "sum32" else 2
+                ops = ["ps.init %d %02x %d %s %d %d %s" % (2 + w + ds + 3, rnd.choice([0, 0xff, 0xa5]), 2, kind, init, ds, buf)]
+                for (a, b) in colliding(kind, init, ds):
+                    ops += ["ps.store %s" % a, "ps.validate", "ps.fetch", "ps.store %s" % b, "ps.validate", "ps.fetch",
+                            "ps.store %s" % b, "ps.fetch", "ps.store %s" % a, "ps.validate", "ps.fetch"]
+                if len(ops) > 1:
+                    cs.append(Case("collide%d" % m, ops, ("equal-checksums", kind)))
+                    m += 1
     return cs
 
 
